@@ -645,3 +645,59 @@ Lemma foreign_handle_rejected_reachable k s c i o :
   (exists a, o = OChk c i a) \/ (k = KTree /\ exists j, o = ORemoveRange c i j \/ o = ORemoveRange c j i) ->
   step k s o = (s, Rej).
 Proof. intros R. apply foreign_handle_rejected, (reachable_inv k s R). Qed.
+
+(* ---------- the exact accepted-set of the code ---------- *)
+(* "no version-bumping step ran": every step of the history kept the version of crew cr *)
+Fixpoint steps_keep (k : kind) (s : state) (ops : list op) (cr : nat) : Prop :=
+  match ops with
+  | [] => True
+  | o :: t => ver_of_crew (fst (step k s o)) cr = ver_of_crew s cr /\ steps_keep k (fst (step k s o)) t cr
+  end.
+Lemma version_unchanged_iff_no_bumping_step k ops : forall s cr v,
+  Inv s -> ver_of_crew s cr = Some v ->
+  (ver_of_crew (run k s ops) cr = Some v <-> steps_keep k s ops cr).
+Proof.
+  induction ops as [|o t IH]; intros s cr v I Hv; simpl; [tauto|].
+  destruct (step_ext k s o I cr v Hv) as (v1 & Hv1 & L1).
+  pose proof (step_inv k s o I) as I1.
+  destruct (run_ext k t _ I1 cr v1 Hv1) as (v2 & Hv2 & L2).
+  split.
+  - intros E. rewrite Hv2 in E. inversion E; subst. assert (v1 = v) by lia. subst v1.
+    split; [congruence|]. apply (IH _ cr v I1 Hv1). congruence.
+  - intros (E1 & K). rewrite Hv in E1. apply (IH _ cr v I1 E1). exact K.
+Qed.
+
+(* The code's accepted-set, exactly: a handle to an element (not re-assigned meanwhile) is accepted by a read IF AND ONLY IF
+   the version of its container is still the one it recorded, i.e. iff no version-bumping entry point ran since it was
+   taken.  (The property's reading "... iff the container was not modified" is weaker on the accepting side: see the
+   over-invalidation witnesses below.) *)
+Lemma accepted_iff_no_bump k s c i key ops :
+  reachable k s -> hcrew (hs s i) = Some (crew (getc s c)) -> hsnap (hs s i) = ver (getc s c) -> hpos (hs s i) = PElem key ->
+  Forall (fun o => writes o i = false) ops ->
+  let s' := run k s ops in
+  (step k s' (ODeref i) = (s', Acc (Some key)) <-> steps_keep k s ops (crew (getc s c))) /\
+  (step k s' (ODeref i) = (s', Rej) <-> ~ steps_keep k s ops (crew (getc s c))).
+Proof.
+  intros R HC HS HP FW s'. pose proof (reachable_inv k s R) as I.
+  pose proof (run_unwritten k ops i s FW) as Hh. fold s' in Hh.
+  pose proof (version_unchanged_iff_no_bumping_step k ops s _ _ I (ver_of_crew_getc s c I)) as V. fold s' in V.
+  assert (D : step k s' (ODeref i) = (s', Acc (Some key)) \/ step k s' (ODeref i) = (s', Rej)).
+  { cbn [step]. unfold do_deref. rewrite Hh, HP. destruct (chk_self s' (hs s i)); auto. }
+  assert (A : step k s' (ODeref i) = (s', Acc (Some key)) <-> ver_of_crew s' (crew (getc s c)) = Some (ver (getc s c))).
+  { cbn [step]. unfold do_deref, chk_self. rewrite Hh, HP, HC, HS.
+    destruct (ver_of_crew s' (crew (getc s c))) as [v|]; [|split; intros X; discriminate].
+    destruct (Nat.eqb_spec v (ver (getc s c))); split; intros X; try congruence; inversion X; congruence. }
+  split; [rewrite A; exact V|].
+  split.
+  - intros E K. apply V in K. apply A in K. congruence.
+  - intros NK. destruct D as [D|D]; auto. exfalso. apply NK, V, A, D.
+Qed.
+
+(* over-invalidation witness on the set model: Clear(shrink = false) of an EMPTY table that still owns buckets changes no
+   contents but bumps the version, so a position taken before it is rejected afterwards *)
+Example noop_clear_invalidates :
+  let pre := [OInsert false 5 0; ORemoveKey false 5; OFind false 7 1] in
+  keys (w0 (run KHash init pre)) = keys (w0 (run KHash init (pre ++ [OClear false false]))) /\
+  snd (step KHash (run KHash init pre) (OAddAt false 1 7)) = Acc None /\
+  snd (step KHash (run KHash init (pre ++ [OClear false false])) (OAddAt false 1 7)) = Rej.
+Proof. vm_compute. repeat split. Qed.
